@@ -56,6 +56,12 @@ def run(ctx: Ctx) -> Result:
             if not A.check_setup(view, i, n): viol(f'party {i} of {n}: check_setup rejects its own view', inp, 'True', view)
         final = A.setup_for(s, n)
         k = final[-1]
+        # the receiver's view: the lock it is handed is the last one, and the key in the same view opens it
+        try:
+            if final[0][0] != Y[n - 1] or not A.verify_lock_key(final[0][0], final[-1]):
+                viol('receiver view: the key in the view does not open the lock in the view / the lock is not the last one', inp, Y[n - 1].hex(), str(final[0][0].hex() if isinstance(final[0][0], bytes) else final[0][0]))
+        except BaseException as e:
+            viol('receiver view: malformed', inp, '((Y_last, 0, 0), key)', type(e).__name__)
         ksum = sum(int.from_bytes(x, 'little') for x in y) % L
         if int.from_bytes(k, 'little') % L != ksum: viol('final key is not the sum of all secrets', inp, hex(ksum), k.hex())
         if not A.verify_lock_key(Y[n - 1], k): viol('final key does not open the last lock', inp, 'True', False)
@@ -154,6 +160,18 @@ def run(ctx: Ctx) -> Result:
                 amhl = T.setup_amhl(seed, pks, flags, refund) if refund else T.setup_amhl(seed, pks, flags)
                 key = amhl['key']
                 tw = [amhl[pk][2] for pk in pks]; sc = [amhl[pk][3] for pk in pks]
+                # what setup_amhl reports per hop is consistent with the chain the module derives from the same seed: tweak point i =
+                # sum of the points of the reported secrets 0..i, and hop 0's reported secret is the first sample itself
+                ys_, Ys_ = A.setup(n, seed if seed else None) if seed else (None, None)
+                acc_ = None
+                for i in range(n):
+                    try: pt_ = nb.crypto_scalarmult_ed25519_base_noclamp(sc[i]) if len(sc[i]) == 32 else None
+                    except BaseException: pt_ = None
+                    if pt_ is None: viol(f'setup_amhl: the secret reported for hop {i} is not a scalar whose point exists', inp, 'a 32-byte scalar', sc[i].hex()); break
+                    acc_ = pt_ if acc_ is None else nb.crypto_core_ed25519_add(acc_, pt_)
+                    if acc_ != tw[i]: viol(f'setup_amhl: tweak point of hop {i} is not the sum of the points of the reported secrets 0..{i}', inp, acc_.hex(), tw[i].hex()); break
+                if ys_ is not None and (list(ys_) != list(sc) or list(Ys_) != list(tw)):
+                    viol('setup_amhl reports other secrets / points than AMHL.setup derives from the same seed', inp, [x.hex()[:16] for x in ys_], [x.hex()[:16] for x in sc])
                 if not A.verify_lock_key(tw[n - 1], key):
                     viol('setup_amhl: the returned key does not open the last hop', inp, 'True', False); continue
                 ws = [T.make_adapter_witness(seeds[i], tw[i], sfs[i], flags) for i in range(n)]
